@@ -35,7 +35,11 @@ static void run(const char* data, size_t size, const std::string& format) {
 extern "C" int LLVMFuzzerTestOneInput(const uint8_t* data, size_t size) {
 #ifdef C03_STRUCTURED
     vp::Src s{data, size};
-    filegen::Made m = filegen::small_file(s, static_cast<int>(s.draw(4)), 5);
+    const int fmt = static_cast<int>(s.draw(4));
+    enc::PbfEncoder::Hostile hostile;
+    const bool use_hostile = fmt == 0 && s.boolean();  // PBF: well-formed protobuf, inconsistent in one place
+    if (use_hostile) hostile = filegen::gen_hostile(s);
+    filegen::Made m = filegen::small_file(s, fmt, 5, true, 0, use_hostile ? &hostile : nullptr);
     std::string b = m.bytes;
     size_t steps = s.draw(4);
     for (size_t i = 0; i < steps; ++i) filegen::mutate(s, b);
